@@ -29,7 +29,7 @@ META = {
 }
 
 KNOWN_PUSH0 = "venom-revert-postamble-push0-pre-shanghai"
-STATIC = ["C16/Asm.v", "C16/HexBytes.v", "C16/PushProofs.v", "C16/AsmProofs.v", "C16/EvmOpcodes.v"]
+STATIC = ["C16/Asm.v", "C16/HexBytes.v", "C16/InstrBridge.v", "C16/PushProofs.v", "C16/AsmProofs.v", "C16/EvmOpcodes.v"]
 
 
 # ------------------------------------------------------------------ real side helpers
@@ -127,7 +127,7 @@ def synth_cases(ctx):
     I = A._imports()
     rnd = ctx.rng("synth")
     from vyper.evm import opcodes as O
-    plain = [k for k, v in O.OPCODES.items() if not k.startswith("PUSH") and k not in ("DEBUG",)
+    plain = [k for k, v in O.OPCODES.items() if not k.startswith("PUSH") and k not in ("DEBUG", "BREAKPOINT")
              and not isinstance(v[3], tuple)]
     bvals = [0, 1, 2, 127, 128, 255, 256, 257, 65535, 65536, 2**24 - 1, 2**24, 2**32, 2**64 - 1, 2**64, 2**128,
              2**160 - 1, 2**248 - 1, 2**248, 2**255, 2**256 - 1]
@@ -227,7 +227,7 @@ def synth_cases(ctx):
         [I.PUSH_OFST(I.CONSTREF("nope"), 0)], [I.CONST("k", 1), I.CONST("k", 1)], [I.CONST("k", 1), I.CONST("k", 2)],
         ["PUSH1", 256], ["PUSH1", -1], ["NOTANOP"], ["push1", 1], ["add"], [L("code_end")], [I.DataHeader(L("a")), L("a")],
         [L("a"), I.PUSH_OFST(L("a"), -1)], [L("a"), I.PUSH_OFST(L("a"), 65535)], [L("a"), I.PUSH_OFST(L("a"), 65536)],
-        [I.CONST("k", 5), I.PUSH_OFST(I.CONSTREF("k"), -5)], ["DEBUG", "STOP"], ["STOP", "DEBUG"],
+        [I.CONST("k", 5), I.PUSH_OFST(I.CONSTREF("k"), -5)], I.mkdebug(True, None) + ["STOP"], ["STOP"] + I.mkdebug(True, None) + [L("z")],
         [I.PUSHLABEL(L("code_end"))], [], ["PUSH0"], ["MCOPY"], ["TLOAD"], ["BLOBHASH"], ["PUSH33"], ["DUP17"], ["SWAP0"],
         ["PREVRANDAO", "DIFFICULTY"], [I.DATA_ITEM(b"")], [I.CONST("k", 3), I.PUSH_OFST(I.CONSTREF("k"), 2**256 - 4)],
     ]
@@ -238,7 +238,10 @@ def synth_cases(ctx):
     for asm, evm, kind in out:
         r = real_assemble(asm, evm)
         term, Lb, Cb = A.serialise(asm)
-        c = dict(name=f"synthetic:{kind}", evm=evm, asm=asm, term=term, L=Lb, C=Cb, kind=kind, fresh=True)
+        cv = {x.name: x.value for x in asm if isinstance(x, I.CONST)}
+        dom = all(0 <= cv.get(x.label.label, 0) + x.ofst < 2**256 for x in asm
+                  if isinstance(x, I.PUSH_OFST) and isinstance(x.label, I.CONSTREF))
+        c = dict(name=f"synthetic:{kind}", evm=evm, asm=asm, term=term, L=Lb, C=Cb, kind=kind, fresh=True, in_domain=dom)
         if r[0] == "ok":
             c.update(code=r[1], sm=r[2], cm=r[3])
         else:
@@ -271,15 +274,23 @@ def run_oracle(ctx, cases):
     for c in cases:
         if c["code"] is None:
             continue
-        if "cfg" not in c and c["kind"] not in ("random-wf", "all-widths", "cross-ffff-wf"):
-            continue
-        probs = A.oracle(c["asm"], c["code"], c["sm"], c["cm"], has_push0(c["evm"]), yp.get)
+        if "cfg" not in c and (c["kind"] not in ("random-wf", "all-widths", "cross-ffff-wf") or not c["in_domain"]):
+            continue  # PUSH of a value outside [0, 2^256) is outside the property's domain (see notes/C16.md)
+        probs = A.oracle(c["asm"], c["code"], c["sm"], c["cm"], has_push0(c["evm"]), yp.get, evm=c["evm"])
+        if "cfg" in c:
+            # independent byte-level decode of the code part: every opcode must exist on the target fork
+            I_ = A._imports()
+            heads = [c["sm"][it.label] for it in c["asm"] if isinstance(it, I_.DataHeader)]
+            code_len = min(heads) if heads else len(c["code"])
+            for m in A.target_validity(c["code"], code_len, c["evm"]):
+                probs.append(m)
+            c["target_checked"] = code_len
         c["oracle"] = probs
         if not probs:
             continue
         I = A._imports()
-        postamble = all(i is not None and i > 0 and c["asm"][i - 1] == I.Label("revert") and "PUSH0 emitted" in m
-                        for i, m in probs.items)
+        postamble = all((i is not None and i > 0 and c["asm"][i - 1] == I.Label("revert") and "PUSH0 emitted" in m)
+                        or (i is None and "0x5f" in m) for i, m in probs.items) and any(i is not None for i, _ in probs.items)
         d = describe(c)
         d["oracle_problems"] = probs[:8]
         d["bytecode"] = c["code"].hex()[:4000]
@@ -294,7 +305,7 @@ def run_oracle(ctx, cases):
                 d["affected_in_this_run"] = sum(
                     1 for x in cases if x["code"] is not None and "cfg" in x and x["cfg"].venom and not has_push0(x["evm"]))
                 ctx.violation("failing-input", "venom back end emits PUSH0 (0x5f) in the shared revert block for a "
-                              "pre-Shanghai target", d, key=KNOWN_PUSH0)
+                              "pre-Shanghai target (regression of the defect fixed by commit 1e339b4)", d, key=KNOWN_PUSH0)
             if ctx.is_known(KNOWN_PUSH0) is None:
                 found += 1
             continue
@@ -404,7 +415,8 @@ def run(ctx):
             (["C16/InstrSound.v"] if gen_instr else []) + ["C16/PropsAsm.v"] + (["C16/PropsInstr.v"] if gen_instr else [])
     b = ctx.coq_build(files)
     lap("coq build")
-    model_ready = all((COQ / f[:-2]).with_suffix(".vo").exists() for f in ["C16/GenOpcodes.v", "C16/Asm.v", "C16/HexBytes.v"])
+    model_ready = all((COQ / (f[:-2] + ".vo")).exists() for f in ["C16/GenOpcodes.v", "C16/Asm.v", "C16/HexBytes.v"])
+    instr_ready = gen_instr and all((COQ / (f[:-2] + ".vo")).exists() for f in ["C16/GenAsmInstr.v", "C16/InstrBridge.v"])
     if not model_ready:
         ctx.violation("correspondence-broken", "model files did not compile", {"out": b.get("out", "")[-1500:]})
         return
@@ -421,7 +433,8 @@ def run(ctx):
     bad_b = compare_model(ctx, sc, "synth")
     lap("model on synthetic")
     # translation validation of instructions.py (model vs CPython)
-    n_instr, bad_instr = c16_instr.differential(ctx) if gen_instr else (0, 0)
+    n_instr, bad_instr = c16_instr.differential(ctx) if instr_ready else (0, 0)
+    lap(f"instructions.py differential ({n_instr} cases)")
 
     # Search = the property oracle on all real outputs (always run; cheap)
     found += run_oracle(ctx, cc + sc)
@@ -466,6 +479,8 @@ def run(ctx):
         "model_mismatches": bad_a + bad_b, "item_kinds": kinds,
         "bytes_compared": sum(len(c["code"]) for c in fresh + sc if c["code"] is not None),
         "oracle_runs": sum(1 for c in cc + sc if "oracle" in c),
+        "target_validity_code_bytes": sum(c.get("target_checked", 0) for c in cc),
+        "target_validity_by_evm": {e: sum(1 for c in cc if c["evm"] == e and "target_checked" in c) for e in A.EVM_NAMES},
         "instr_differential_cases": n_instr,
     })
     if fresh:
